@@ -130,9 +130,11 @@ program:
 literal:
 	tBare {
 		$$ = $1
+		yylex.(*lexer).bareLiteral = true
 	} |
 	tLiteral {
 		$$ = $1
+		yylex.(*lexer).bareLiteral = false
 	}
 
 identifier:
@@ -223,7 +225,7 @@ columnConstraint:
 		$$ = ccDefault($2)
 	} |
 	DEFAULT literal {
-		$$ = ccDefault($2)
+		$$ = defaultLiteral($2, yylex.(*lexer).bareLiteral)
 	} |
 	DEFAULT NULL {
 		$$ = ccDefault(nil)
